@@ -120,6 +120,20 @@ def _casc3(opt):
         E['C'](id=1, a=a1); E['C'](id=2, a=a2)
     return Model(name, define, populate, tags=['casc3'], opts=dict(rel='casc3', req=not opt, cascade=None, uniq=True, inherit=False, ckey=False, pk='int', lazy=False, np='default', lazy_rel=False))
 
+def _o2o3():
+    """three entities: A holds the column of a cascading one-to-one to B and is itself referenced by C,
+    so an A can be met as an unloaded reference (C.a) before anything else touches it"""
+    def define(db):
+        from pony.orm import PrimaryKey, Required, Optional, Set
+        type('A', (db.Entity,), dict(id=PrimaryKey(int), n=Optional(int), b=Optional('B', cascade_delete=True, column='b_id'), cs=Set('C')))
+        type('B', (db.Entity,), dict(id=PrimaryKey(int), m=Optional(int), a=Optional('A')))
+        type('C', (db.Entity,), dict(id=PrimaryKey(int), a=Optional('A')))
+    def populate(E):
+        b1 = E['B'](id=1, m=0); b2 = E['B'](id=2, m=1)
+        a1 = E['A'](id=1, n=0, b=b1); a2 = E['A'](id=2, n=1)
+        E['C'](id=1, a=a1); E['C'](id=2, a=a1)
+    return Model('o2o3', define, populate, tags=['o2o3'], opts=dict(rel='o2o3', req=False, cascade=True, uniq=False, inherit=False, ckey=False, pk='int', lazy=False, np='default', lazy_rel=False))
+
 def catalogue(tier='quick'):
     """Model list. quick: one representative per relationship kind and option that changes code
     paths; thorough: the full option product."""
@@ -138,7 +152,7 @@ def catalogue(tier='quick'):
     M.append(_rel_model('o2m', req=True, cascade=False))
     M.append(_rel_model('o2m', req=False, cascade=True))
     M.append(_rel_model('o2m', req=False, pk='auto'))
-    M.append(_casc3(False)); M.append(_casc3(True))
+    M.append(_casc3(False)); M.append(_casc3(True)); M.append(_o2o3())
     if tier != 'quick':
         M.append(_rel_model('o2o', req=False, cascade=True))
         M.append(_rel_model('o2o', req=True, cascade=False))
